@@ -127,7 +127,7 @@ def detectRenames (env : Env) (t : Node) (rootHist : Hist) (s : Session) (newPat
       let (s, foundOld, ren) := acc
       let (oh, orel) := route rootHist nf
       match findFirstAny oh.gens (posix orel) with
-      | none => acc   -- the code would raise AttributeError; recorded paths always have a record
+      | none => acc   -- a folder recorded without directory hashes has nothing to compare (skipped)
       | some oldE =>
         -- the record of the new path in the session: first list (in insertion order) that has it
         let holder := s.lists.findSome? fun l =>
@@ -378,8 +378,9 @@ def verifyDh (env : Env) (t : Node) (o : DhOpts) : Outcome :=
             if !fmts.contains e.fmt then st
             else match hashes.find? (fun x => x.1 == e.fmt) with
               | some (_, c', s') =>
-                if compareDir e c' s' == 1 && !o.rootOnly then
-                  { st with failedFormats := appendNew st.failedFormats e.fmt,
+                if compareDir e c' s' == 1 then
+                  -- the root comparison is always made (and logged); with -ro it does not count
+                  { st with failedFormats := if o.rootOnly then st.failedFormats else appendNew st.failedFormats e.fmt,
                             dirMismatch := appendNew st.dirMismatch "." }
                 else st
               | none => st) st) st
@@ -418,8 +419,10 @@ def flatten (env : Env) (t : Node) (ignoreCli ignoreFile : List String) : Outcom
         { fileName := "packinglist_" ++ env.rootName ++ "_" ++ env.stamp ++ Gen.fileExtension,
           process := "flatten", rootHash := none,
           ignore := setPatterns none patterns [],
-          records := flattenRecords rootHist.gens }
-      { written := [⟨[], 1, g⟩] }
+          records := (flattenRecords rootHist.gens).map fun r =>
+            { r with entries := isort (fun a b => strLe a.fmt b.fmt) r.entries } }
+      -- the session only gets a list for the collection when at least one digest is taken over
+      { written := if g.records.isEmpty then [] else [⟨[], 1, g⟩] }
 
 /-! ## info -/
 
